@@ -64,6 +64,20 @@ def small_programs(tier):
     for l in loops:
         for k in keeps:
             rec.append("(progn (setq b nil) (setq c nil) %s (list b c (mapcar (lambda (e) (if (consp e) e (if (symbolp e) e (if (numberp e) e (funcall e))))) (if (consp b) b nil))))" % (l % k))
+    recdefs = ("(defun build (n acc) (if (< n 1) acc (build (- n 1) (cons n acc)))) "
+               "(defun walk (n tag) (cond ((< n 1) tag) (t (walk (- n 1) tag)))) "
+               "(defun keepq (n q) (let ((m (- n 1))) (if (< n 1) (list q a) (keepq m q)))) "
+               "(defun nontail (n x) (if (< n 1) (list x) (cons x (nontail (- n 1) x)))) "
+               "(defun viaf (n x) (if (< n 1) x (funcall 'viaf (- n 1) (list x)))) "
+               "(defun evn (n x) (if (< n 1) (list 'even x) (odd (- n 1) x))) (defun odd (n x) (if (< n 1) (list 'odd x) (evn (- n 1) x))) "
+               "(defun opt (n &optional x &rest r) (if (< n 1) (list x r) (opt (- n 1) x 'k1 x)))")
+    rvals = ["'tag", "'a", "'(1 2)", "'(tick 5)", "''q", "'(setq a 99)", "\"s\"", "7", "nil", "a", "'(a b)", "(list 'quote 'z)", ":k", "'nosuchvar", "`(,a)"]
+    rcalls = ["(build %d nil)", "(walk %d V)", "(keepq %d V)", "(nontail %d V)", "(viaf %d V)", "(evn %d V)", "(opt %d V)", "(opt %d V 'r1 V)",
+              "(funcall 'walk %d V)", "(mapcar (lambda (e) (walk %d e)) (list V V))", "(let ((tag 'ltag) (q 'lq)) (keepq %d V))", "(walk %d (walk 1 V))"]
+    for cform in rcalls:
+        for n in (0, 1, 2, 3):
+            for v in rvals:
+                rec.append("(progn %s (setq a 'ga) (list %s a))" % (recdefs, (cform % n).replace("V", v)))
     level1 = [u % x for u in unary for x in atoms] + [b % (x, y) for b in binary for x in atoms for y in atoms]
     out = list(atoms) + level1 + rec
     if tier == "thorough":
